@@ -69,6 +69,9 @@ ASSUMPTIONS = [
     "neutral operands (0 in sums, 1 in products) may be dropped by the unifier's "
     "multi-operand bindings; products containing the constant 0 are not generated "
     "(flattened_product collapses them to 0: value-preserving, not AC)",
+    "the unifier has no work limit: cases whose static work bound (records from free "
+    "operands, duplicate records from identical sibling operands) exceeds 20000 are "
+    "skipped and counted",
     "an injective renaming maps candidate variables to distinct names that are "
     "either candidates or fresh, so that it stays injective on all pattern variables",
     "bridge patterns are rooted at an operator node, star wildcards occur only in "
@@ -83,7 +86,7 @@ HEALTH = {"u:has-records": 0.10, "u:repeated-cand": 0.08, "u:multi-free-in-ac": 
           "b:star-commutative": 0.03, "b:star-sequence": 0.03, "b:has-match": 0.10,
           "b:replaced": 0.03}
 
-CASE_TIMEOUT_S = 20
+CASE_TIMEOUT_S = 5      # record explosions of the unifier are skipped, see tame()
 TIMEOUT_IS_FAIL = False
 MAX_RECORDS = 300
 
@@ -94,6 +97,25 @@ AC_BRIDGE = (p.Sum, p.Product, p.LogicalOr, p.LogicalAnd,
 
 # {{{ keys
 
+def zero_like(e):
+    """Structurally zero as pymbolic's own truthiness defines it (what
+    flattened_sum drops and what makes flattened_product return 0)."""
+    if isinstance(e, p.Expression):
+        if type(e) is p.Sum:
+            return len(e.children) == 1 and zero_like(e.children[0])
+        if type(e) is p.Product:
+            return any(zero_like(c) for c in e.children)
+        if type(e) in (p.Quotient, p.FloorDiv, p.Remainder):
+            return zero_like(e.numerator)
+        return False
+    if isinstance(e, (tuple, list, str)) or e is None:
+        return False
+    try:
+        return bool(e == 0)
+    except Exception:
+        return False
+
+
 def mkey(e, ac=AC_UNIFIER, lax=False):
     """Key modulo associativity/commutativity of the node types in *ac*,
     Subscript indices as tuples, numbers by value.  lax=True additionally
@@ -102,23 +124,23 @@ def mkey(e, ac=AC_UNIFIER, lax=False):
     t = type(e)
     if t in ac:
         items = []
+        if lax and t is p.Product and zero_like(e):
+            return ("c", 0)
 
         def add(x):
             if type(x) is t:
                 for c in x.children:
                     add(c)
+            elif lax and t is p.Sum and zero_like(x):
+                pass
             else:
                 items.append(mkey(x, ac, lax))
         add(e)
         if lax:
-            if t is p.Sum:
-                items = [k for k in items if k != ("c", 0)]
-                if not items:
-                    return ("c", 0)
-            elif t is p.Product:
+            if t is p.Product:
                 items = [k for k in items if k != ("c", 1)]
-                if not items:
-                    return ("c", 1)
+            if not items:
+                return ("c", 0 if t is p.Sum else 1)
             if len(items) == 1:
                 return items[0]
         return (t.__name__, tuple(sorted(items, key=repr)))
@@ -320,6 +342,52 @@ def _judge_records(res, pattern, target, cands, recs):
         res.label("u:records-capped")
 
 
+WORK_LIMIT = 20000
+
+
+def _explosive(pattern, target, cands):
+    """Static bound on the unifier's work (it has no work limit of its own).
+
+    legit: a Sum/Product with k free operands and n fixed ones yields up to
+    k**(M-n) records against a target node of M operands; the numbers of
+    different nodes multiply.  dup: identical sibling operands (pattern or
+    target) give identical records; every Sum/Product with n fixed operands
+    that is processed later combines them in dup**n ways, and so on."""
+    import math
+    m_target = 1
+    dup = 1
+
+    def mult(children):
+        seen = {}
+        for c in children:
+            k = walk.key(c, strict=False)
+            seen[k] = seen.get(k, 0) + 1
+        r = 1
+        for v in seen.values():
+            r *= math.factorial(v)
+        return r
+    for _, n in walk.occurrences(target):
+        if type(n) in AC_UNIFIER:
+            m_target = max(m_target, len(n.children))
+            dup *= mult(n.children)
+    legit = 1
+    expo = 1
+    for _, n in walk.occurrences(pattern):
+        if type(n) in AC_UNIFIER:
+            k = sum(1 for c in n.children
+                    if type(c) is p.Variable and c.name in cands)
+            fixed = len(n.children) - k
+            dup *= mult(n.children)
+            if k >= 2:
+                legit *= k ** max(1, m_target - fixed)
+            expo *= max(1, fixed)
+    if legit > WORK_LIMIT:
+        return "unifier-work-bound:records"
+    if dup > 1 and (expo > 12 or dup ** expo > WORK_LIMIT):
+        return "unifier-work-bound:identical-operands"
+    return None
+
+
 def _unify(pattern, target, cands):
     from pymbolic.mapper.unifier import UnidirectionalUnifier
     recs = UnidirectionalUnifier(cands)(pattern, target)
@@ -337,6 +405,9 @@ def check_unify(spec):
     cands = _cand_container(names, spec.get("as", "set"))
     if not isinstance(pattern, p.Expression):
         raise HarnessError("pattern must be an expression node")
+    why = _explosive(pattern, target, set(names))
+    if why:
+        return res.skip(why)
     recs = _unify(pattern, target, cands)
     interesting = _classify_pattern(res, pattern, set(names))
     res.label("u:origin:" + str(spec.get("origin", "?")))
@@ -352,9 +423,29 @@ def check_unify(spec):
     return res
 
 
+def _commute(e, keys):
+    """Permute the operands of every Sum/Product (preorder); the i-th such
+    node uses the (keys[i % len] mod n!)-th permutation of its n operands."""
+    import itertools
+    import math
+    counter = [0]
+
+    def rec(x):
+        if type(x) in AC_UNIFIER:
+            k = keys[counter[0] % len(keys)]
+            counter[0] += 1
+            n = len(x.children)
+            perm = next(itertools.islice(itertools.permutations(range(n)),
+                                         k % math.factorial(n), None)) if n else ()
+            return type(x)(tuple(rec(x.children[i]) for i in perm))
+        return walk.rebuild(x, rec)
+    return rec(e)
+
+
 def check_rename(spec):
-    """spec: {"pattern", "cands": [names], "as", "renaming": [[old, new], ...]}
-    The target is the pattern under the renaming (reference substitution)."""
+    """spec: {"pattern", "cands": [names], "as", "renaming": [[old, new], ...],
+    "shuffle": [ints]}.  The target is the pattern under the renaming
+    (reference substitution); a non-empty "shuffle" also commutes operands."""
     res = Result()
     pattern = build(spec["pattern"])
     if not isinstance(pattern, p.Expression):
@@ -381,15 +472,27 @@ def check_rename(spec):
             return (p.Variable(ren[e.name]),)
         return None
     target = walk.transform(pattern, sub)
+    shuffle = [k for k in spec.get("shuffle", []) if isinstance(k, int) and k >= 0]
+    commuted = False
+    if shuffle:
+        # also commute the operands of the target's sums/products: not covered
+        # by the letter of the completeness clause (see F28), separate kind
+        before = walk.key(target)
+        target = _commute(target, shuffle)
+        commuted = walk.key(target) != before
+    why = _explosive(pattern, target, set(names))
+    if why:
+        return res.skip(why)
     recs = _unify(pattern, target, cands)
     interesting = _classify_pattern(res, pattern, set(names))
-    res.label("u:origin:rename")
+    res.label("u:origin:rename+commute" if commuted else "u:origin:rename")
     if recs:
         res.label("u:has-records")
     _judge_records(res, pattern, target, set(names), recs)
     res.compared()
     if not recs:
-        res.fail("no-record-for-injective-renaming",
+        res.fail("no-record-for-commuted-renaming" if commuted
+                 else "no-record-for-injective-renaming",
                  f"pattern {pattern!r}\ncandidates {sorted(names)}\n"
                  f"renaming {ren}\ntarget {target!r}")
     res.nontrivial = bool(interesting)
@@ -760,7 +863,7 @@ def _known_f28(sub, spec, fail):
     """Completeness: a Sum/Product of the pattern holds >= 2 free (candidate)
     variables next to a fixed operand, and one of those variables occurs again
     (so that the first consistent leftover partition can be the wrong one)."""
-    if sub != "rename" or fail.kind != "no-record-for-injective-renaming":
+    if sub != "rename" or fail.kind != "no-record-for-commuted-renaming":
         return False
     cands = set(spec["cands"])
     counts = {}
@@ -797,7 +900,9 @@ def _known_tupleop(sub, spec, fail):
             and ((fail.kind == "raises:TypeError@interop/matchpy/__init__.py:replace_all"
                   and "TupleOp.__init__() got multiple values" in fail.detail)
                  or (fail.kind == "raises:AttributeError@interop/matchpy/mapper.py:rec"
-                     and "map_tuple_op" in fail.detail))
+                     and ("map_tuple_op" in fail.detail
+                          or "object has no attribute '_mapper_method'" in fail.detail))
+                 or fail.kind == "rebuilding-replacement-is-not-identity")
             and _inside_tuple_operand(spec))
 
 
@@ -854,7 +959,7 @@ def u_tree(draw, depth, free, fixed, ctx=None, root=False, p_free=55):
         return leaf()
     tag = draw(st.sampled_from(
         ("Sum", "Sum", "Sum", "Product", "Product", "Product", "Quotient", "Power",
-         "Call", "Call", "Subscript", "Comparison", "If")))
+         "Call", "Call", "Subscript", "Comparison", "Comparison", "If", "Lookup")))
 
     def rec(c=None):
         return draw(u_tree(depth - 1, free, fixed, c, False, p_free))
@@ -886,6 +991,10 @@ def u_tree(draw, depth, free, fixed, ctx=None, root=False, p_free=55):
         return [tag, agg, idx]
     if tag == "Comparison":
         return [tag, rec(), draw(st.sampled_from(CMP_OPS)), rec()]
+    if tag == "Lookup":
+        # not in the property's node list, but map_lookup is part of the same
+        # structural descent and the instantiation law applies unchanged
+        return [tag, rec(), draw(st.sampled_from(("real", "imag", "n")))]
     return ["If", ["Comparison", rec(), draw(st.sampled_from(CMP_OPS)), rec()],
             rec(), rec()]
 
@@ -984,6 +1093,99 @@ def shaken(draw, s, ac=("Sum", "Product"), regroup=True):
     return out
 
 
+RECORD_ESTIMATE_LIMIT = 300
+
+
+def tame(draw, pattern, free, fixed):
+    """Keep the unifier's (legitimate) record count small: the number of
+    records is about the product over Sum/Product nodes of k! for k free
+    operands, and *identical* sibling operands give duplicate records which
+    every later Sum/Product with n fixed operands raises to the n-th power.
+    Mostly remove identical siblings; cap the product of factorials."""
+    dedupe = draw(st.integers(0, 9)) < 8
+    budget = [RECORD_ESTIMATE_LIMIT]
+    spare = [n for n in fixed] + ["p", "q", "t"]
+    fact = {0: 1, 1: 1, 2: 2, 3: 6, 4: 24}
+
+    def fix(s):
+        if not is_node_spec(s) or s[0] in ("Var", "Const"):
+            return s
+        out = [s[0]]
+        for fld in s[1:]:
+            if is_node_spec(fld):
+                out.append(fix(fld))
+            elif isinstance(fld, list):
+                out.append([fix(c) if is_node_spec(c) else c for c in fld])
+            else:
+                out.append(fld)
+        if out[0] in ("Sum", "Product"):
+            ch = out[1]
+            if dedupe:
+                seen = []
+                new = []
+                for c in ch:
+                    if c in seen:
+                        alt = [V(n) for n in list(free) + spare if V(n) not in seen
+                               and V(n) not in ch]
+                        c = alt[0] if alt else C(7 + len(seen))
+                    seen.append(c)
+                    new.append(c)
+                ch = new
+            k = sum(1 for c in ch if c[0] == "Var" and c[1] in free)
+            while k >= 2 and budget[0] // fact[min(k, 4)] < 1:
+                # turn one free operand into a fixed one
+                for i, c in enumerate(ch):
+                    if c[0] == "Var" and c[1] in free:
+                        alt = [V(n) for n in spare if V(n) not in ch]
+                        ch = ch[:i] + [alt[0] if alt else C(11 + i)] + ch[i + 1:]
+                        break
+                k -= 1
+            budget[0] = max(1, budget[0] // fact[min(k, 4)])
+            out[1] = ch
+        return out
+    return fix(pattern)
+
+
+@st.composite
+def perturbed(draw, target):
+    """An instance that is off by one detail: a leaf, a comparison operator
+    or a lookup name."""
+    cmps = [x for x in subspecs(target) if x[0] == "Comparison"]
+    lks = [x for x in subspecs(target) if x[0] == "Lookup"]
+    kinds = ["leaf", "leaf"] + (["cmp", "cmp"] if cmps else []) + (
+        ["lookup", "lookup"] if lks else [])
+    kind = draw(st.sampled_from(kinds))
+    if kind == "leaf":
+        leaves = [x for x in subspecs(target) if x[0] in ("Var", "Const")]
+        if not leaves:
+            return target
+        k = draw(st.integers(0, len(leaves) - 1))
+        new = draw(u_value(0))
+        tags = ("Var", "Const")
+    elif kind == "cmp":
+        k = draw(st.integers(0, len(cmps) - 1))
+        tags = ("Comparison",)
+    else:
+        k = draw(st.integers(0, len(lks) - 1))
+        tags = ("Lookup",)
+    cnt = [0]
+
+    def g(node):
+        if node[0] in tags:
+            i = cnt[0]
+            cnt[0] += 1
+            if i == k:
+                if kind == "leaf":
+                    return [new]
+                if kind == "cmp":
+                    op = draw(st.sampled_from([o for o in CMP_OPS if o != node[2]]))
+                    return [[node[0], spec_subst(node[1], g), op,
+                             spec_subst(node[3], g)]]
+                return [[node[0], spec_subst(node[1], g), node[2] + "2"]]
+        return None
+    return spec_subst(target, g)
+
+
 def _pattern_vars(s):
     return [x[1] for x in subspecs(s) if x[0] == "Var"]
 
@@ -993,7 +1195,8 @@ def unify_case(draw):
     ncand = draw(st.sampled_from((1, 2, 2, 3, 3, 4)))
     free = list(CANDS[:ncand])
     depth = draw(st.sampled_from((1, 2, 2, 3)))
-    pattern = draw(u_tree(depth, free, list(FIXED), root=True))
+    pattern = tame(draw, draw(u_tree(depth, free, list(FIXED), root=True)), free,
+                   list(FIXED))
     present = sorted(set(_pattern_vars(pattern)) & set(free))
     # candidates: mostly all free names present, sometimes a strict subset
     if present and draw(st.integers(0, 9)) < 2:
@@ -1033,21 +1236,7 @@ def unify_case(draw):
                 return None
         target = spec_subst(pattern, f)
         if origin == "near":
-            # replace one leaf of the instance
-            leaves = [x for x in subspecs(target) if x[0] in ("Var", "Const")]
-            if leaves:
-                k = draw(st.integers(0, len(leaves) - 1))
-                cnt = [0]
-                new = draw(u_value(0))
-
-                def g(node):
-                    if node[0] in ("Var", "Const"):
-                        i = cnt[0]
-                        cnt[0] += 1
-                        if i == k:
-                            return [new]
-                    return None
-                target = spec_subst(target, g)
+            target = draw(perturbed(target))
         target = draw(shaken(target))
     else:
         target = draw(u_tree(depth, list(VALNAMES[:3]), list(FIXED), root=True,
@@ -1070,7 +1259,8 @@ def rename_case(draw):
     ncand = draw(st.sampled_from((2, 2, 3, 3, 4)))
     free = list(CANDS[:ncand])
     depth = draw(st.sampled_from((1, 2, 2, 3)))
-    pattern = draw(u_tree(depth, free, list(FIXED), root=True))
+    pattern = tame(draw, draw(u_tree(depth, free, list(FIXED), root=True)), free,
+                   list(FIXED))
     present = sorted(set(_pattern_vars(pattern)) & set(free))
     if present and draw(st.integers(0, 9)) < 2:
         cands = [n for n in present if draw(st.booleans())]
@@ -1082,7 +1272,11 @@ def rename_case(draw):
     # images of non-renamed candidates must stay free: rename all candidates
     renaming = [[c, perm[i]] for i, c in enumerate(cands)]
     how = draw(st.sampled_from(("set", "list", "tuple", "frozenset")))
-    return {"pattern": pattern, "cands": cands, "as": how, "renaming": renaming}
+    shuffle = []
+    if draw(st.integers(0, 9)) < 7:
+        shuffle = [draw(st.integers(0, 23)) for _ in range(draw(st.integers(1, 4)))]
+    return {"pattern": pattern, "cands": cands, "as": how, "renaming": renaming,
+            "shuffle": shuffle}
 
 
 # -- bridge ----------------------------------------------------------------
@@ -1269,6 +1463,13 @@ def match_case(draw, sub):
         subject = draw(b_tree(draw(st.integers(1, 3)), None, False, True, B_CORE))
     else:
         subject = draw(b_instance(pattern, faithful=(origin == "inst")))
+    if sub == "replace" and not any(x[0] == "Var" for x in subspecs(pattern)):
+        # the rewriting run needs a variable of the pattern to mark
+        pattern = (["Call", V(draw(st.sampled_from(FUNCS))), [pattern]]
+                   if draw(st.booleans()) else
+                   ["Sum", [pattern, V(draw(st.sampled_from(B_VARS)))]])
+        if origin != "indep":
+            subject = draw(b_instance(pattern, faithful=(origin == "inst")))
     if sub != "match" and draw(st.integers(0, 9)) < 6:
         subject = draw(b_context(subject))
         if draw(st.integers(0, 9)) < 2:
@@ -1280,16 +1481,16 @@ def match_case(draw, sub):
 
 
 def generate(ctx):
-    ctx.run_given(unify_case(), lambda s: ctx.judge("unify", s), ctx.n(9000, 180000))
-    ctx.run_given(rename_case(), lambda s: ctx.judge("rename", s), ctx.n(4000, 80000))
+    ctx.run_given(unify_case(), lambda s: ctx.judge("unify", s), ctx.n(5000, 200000))
+    ctx.run_given(rename_case(), lambda s: ctx.judge("rename", s), ctx.n(2500, 100000))
     ctx.run_given(roundtrip_case(), lambda s: ctx.judge("roundtrip", s),
-                  ctx.n(3000, 60000))
+                  ctx.n(1500, 50000))
     ctx.run_given(match_case("match"), lambda s: ctx.judge("match", s),
-                  ctx.n(3000, 60000))
+                  ctx.n(1500, 60000))
     ctx.run_given(match_case("anywhere"), lambda s: ctx.judge("anywhere", s),
-                  ctx.n(2500, 50000))
+                  ctx.n(1200, 50000))
     ctx.run_given(match_case("replace"), lambda s: ctx.judge("replace", s),
-                  ctx.n(2500, 50000))
+                  ctx.n(1300, 50000))
 
 
 MANIFEST = {
